@@ -6,6 +6,9 @@ CTs == {"application/proto", "application/json", "application/verifc", "applicat
         "application/connect+json", "application/connect+verifc", "application/grpc", "application/grpc+proto",
         "application/grpc+json", "application/grpc+verifc", "application/grpc-web", "application/grpc-web+proto",
         "application/grpc-web+json", "application/grpc-web+verifc",
+        \* a codec whose name has a structured-syntax suffix of its own, and what is left of it after the last "+"
+        "application/vnd.verif+bin", "application/connect+vnd.verif+bin", "application/grpc+vnd.verif+bin",
+        "application/grpc-web+vnd.verif+bin", "application/bin", "application/connect+bin", "application/grpc+bin",
         \* near misses
         "", "text/plain", "application/proto; charset=utf-8", "APPLICATION/PROTO", "application/protox",
         "application/connect", "application/connect+", "application/grpc+", "application/grpc-web+",
@@ -39,7 +42,7 @@ Mk(k, me, ma, ct, cd, enc, th, to, b, lim) ==
 \* dispatch: methods x versions x content types x codec sets
 InitDispatch ==
   \E k \in Kinds, me \in {"POST", "GET", "PUT", "DELETE", "OPTIONS", "post", "HEAD"}, ma \in {<<1, 0>>, <<1, 1>>, <<2, 0>>}, ct \in CTs,
-     cd \in {<<>>, <<"verifc">>} :
+     cd \in {<<>>, <<"verifc">>, <<"verifc", "vnd.verif+bin">>} :
     InitWith(Mk(k, me, ma, ct, cd, "none", "none", <<>>, "good", 0))
 \* timeouts
 InitTimeout ==
